@@ -172,10 +172,23 @@ def verdict (ms : List PMod) (root : Nat) (rs? : Option RState) (obs : List Sexp
               ("viol:program-exit-" ++ rc ++ " entry module imported again at run time (circular import)", "C20-entry-cycle-runs-twice")
             else ("viol:program-exit-" ++ rc ++ " " ++ Sexp.quote stderr.toList, "-")
           else if got == expectedLines ms root [] false then ("ok", "0")
-          else if entryCycle && (got == expectedLines ms root [] true || got == expectedLines ms root fnRoot true) then
-            ("viol:every-top-level-executed-twice", "C20-entry-cycle-runs-twice")
-          else if !fnRoot.isEmpty && got == expectedLines ms root fnRoot false then
-            ("viol:function-of-module-under-analysis-resolved-to-entry-module", "C20-cycle-function")
+          else
+            -- class shapes. A use `F:m<b>:m<t> v` of fnRoot may show the `f` of ANOTHER module (100 + k, k ≠ t: the entry's, or that
+            -- of an enclosing module that already defined `f`): compare those lines by their prefix only. In an entry cycle the
+            -- entry's top level (with `erg compile` + python: every top level) runs twice: same set of lines, each at most twice.
+            let norm (l : String) : String :=
+              match fnRoot.find? (fun (b, t) => l.startsWith ("F:m" ++ toString b ++ ":m" ++ toString t ++ " 1")) with
+              | some (b, t) => "F:m" ++ toString b ++ ":m" ++ toString t
+              | none => l
+            let srt (xs : List String) : List String := xs.mergeSort (fun a b => decide (a ≤ b))
+            let expN := srt ((expectedLines ms root [] false).map norm)
+            let gotN := srt (got.map norm)
+            let gotSet := gotN.eraseDups
+            let atMostTwice := gotN.all (fun l => gotN.count l ≤ 2)
+            if entryCycle && srt gotSet == expN && gotN.length > expN.length && atMostTwice then
+              ("viol:top-level-executed-twice", "C20-entry-cycle-runs-twice")
+            else if !fnRoot.isEmpty && gotN == expN then
+              ("viol:function-of-module-under-analysis-resolved-to-another-module", "C20-cycle-function")
           else ("viol:output-differs expected" ++ sp ((expectedLines ms root [] false).map (fun l => Sexp.quote l.toList)), "-")
         | _ => ("viol:no-run-observation", "-")
     else
